@@ -54,6 +54,7 @@ def run(db, rep, tier):
     r1(db, rep)
     r2(db, rep)
     r3(db, rep)
+    r3_legacy(db, rep)
     r4(db, rep)
     r5(db, rep)
     rep.explanation = ("Also: (R4) DataTracker::sequence_number(x) is called from Flow only under state_ == UNKNOWN - a retransmitted SYN "
@@ -538,3 +539,126 @@ def r5(db, rep):
         rep.violation("R5-keep-longest", key, facts.loc(f), bad)
     else:
         rep.ok("R5-keep-longest", key, facts.loc(f), "empty slot filled; otherwise the longer payload is kept and the other one freed (6 cells)")
+
+
+def r3_legacy(db, rep):
+    """the legacy follower's drain loop walks its sequence-keyed fragment map from find(my_seq): every advance must continue
+    at begin() when it falls off the end (segments whose sequence numbers wrapped past 2^32 sort first)"""
+    fs = db.fns_named("Tins::TCPStream::generic_process")
+    if not fs:
+        rep.analysis_broken("TCPStream::generic_process vanished")
+        return
+    f = fs[0]
+
+    def end_of(e, contvar):
+        e = strip(e)
+        return e["k"] == "CXXMemberCallExpr" and e.get("cname") == "end" and e["c"][0].get("c") and \
+            facts.strip_all(e["c"][0]["c"][0]).get("var") == contvar
+
+    def wrap_if(fn_, n, v, contvar):
+        """`if (v == cont.end()) v = cont.begin();`"""
+        if n["k"] != "IfStmt":
+            return False
+        real = [x for x in n["c"] if x is not None]
+        c = strip(real[0])
+        if not (c["k"] == "CXXOperatorCallExpr" and c.get("op") == "==" or c["k"] == "BinaryOperator" and c.get("op") == "=="):
+            return False
+        sides = [strip(x) for x in c["c"][-2:]]
+        okc = any(sides[i]["k"] == "DeclRefExpr" and sides[i].get("var") == v and end_of(sides[1 - i], contvar) for i in (0, 1))
+        if not okc:
+            return False
+        for x in facts.walk(real[1]):
+            if x["k"] in ("CXXOperatorCallExpr", "BinaryOperator") and (x.get("op") == "=" or x.get("cname") == "operator="):
+                l = strip(x["c"][-2])
+                if l["k"] == "DeclRefExpr" and l.get("var") == v and any(
+                        y["k"] == "CXXMemberCallExpr" and y.get("cname") == "begin" and y["c"][0].get("c") and
+                        facts.strip_all(y["c"][0]["c"][0]).get("var") == contvar for y in facts.walk(x["c"][-1])):
+                    return True
+        return False
+
+    def helper_wraps(callee, argpos):
+        g_ = db.fn(callee)
+        if g_ is None or not g_.get("body") or argpos >= len(g_["params"]):
+            return False
+        cv = g_["params"][argpos]["var"]
+        rets = [x for x in facts.fn_nodes(g_) if x["k"] == "ReturnStmt" and x.get("c")]
+        for r in rets:
+            rv = [y.get("var") for y in facts.walk(r["c"][0]) if y["k"] == "DeclRefExpr" and y.get("var")]
+            if not rv:
+                return False
+            gg = cfg.FnCFG(g_)
+            wr = [x for x in facts.fn_nodes(g_) if wrap_if(g_, x, rv[0], cv)]
+            if not wr:
+                return False
+            # the wrap test lies on every path to the return (after the last advance of the returned iterator)
+            if gg.reached_from_entry_avoiding(gg.pos(r), [gg.pos([y for y in wr[0]["c"] if y is not None][0])]) is not None:
+                return False
+        return bool(rets)
+    n = 0
+    idx, par = facts.index_fn(f)
+    for loop in facts.fn_nodes(f):
+        if loop["k"] not in ("WhileStmt", "ForStmt", "DoStmt"):
+            continue
+        real = [x for x in loop["c"] if x is not None]
+        condn = real[0] if loop["k"] == "WhileStmt" else None
+        if condn is None:
+            continue
+        its = []
+        for x in facts.walk(condn):
+            if x["k"] in ("CXXOperatorCallExpr", "BinaryOperator") and x.get("op") == "!=":
+                sides = [strip(y) for y in x["c"][-2:]]
+                for i in (0, 1):
+                    o = sides[1 - i]
+                    if sides[i]["k"] == "DeclRefExpr" and o["k"] == "CXXMemberCallExpr" and o.get("cname") == "end" and o["c"][0].get("c"):
+                        cvn = facts.strip_all(o["c"][0]["c"][0])
+                        if cvn["k"] == "DeclRefExpr":
+                            its.append((sides[i]["var"], cvn["var"], sides[i].get("name")))
+        for v, contvar, vname in its:
+            decl = [x for x in facts.fn_nodes(f) if x["k"] == "VarDecl" and x.get("var") == v and x.get("c")]
+            src = None
+            if decl:
+                for y in facts.walk(decl[0]["c"][0]):
+                    if y["k"] == "CXXMemberCallExpr" and y["c"][0].get("c") and facts.strip_all(y["c"][0]["c"][0]).get("var") == contvar:
+                        src = y.get("cname")
+            if src in ("begin", "cbegin"):
+                continue
+            bad = None
+            nadv = 0
+            for x in facts.walk(loop):
+                adv = False
+                if x["k"] in ("CXXOperatorCallExpr", "BinaryOperator") and (x.get("op") == "=" or x.get("cname") == "operator=") and \
+                        strip(x["c"][-2])["k"] == "DeclRefExpr" and strip(x["c"][-2]).get("var") == v:
+                    adv = True
+                    rhs = facts.strip_all(x["c"][-1])
+                    while rhs["k"] in ("CXXConstructExpr",) and rhs.get("c"):
+                        rhs = facts.strip_all(rhs["c"][0])
+                    if rhs["k"] == "CallExpr" and rhs.get("callee"):
+                        args = rhs["c"][1:]
+                        ap = [i for i, a in enumerate(args) if facts.strip_all(a).get("var") == contvar]
+                        if ap and helper_wraps(rhs["callee"], ap[0]):
+                            nadv += 1
+                            continue
+                elif x["k"] in ("CXXOperatorCallExpr", "UnaryOperator") and x.get("op") == "++" and \
+                        strip(x["c"][-1])["k"] == "DeclRefExpr" and strip(x["c"][-1]).get("var") == v:
+                    adv = True
+                if not adv:
+                    continue
+                nadv += 1
+                # a wrap statement must directly follow in the same block
+                p = par.get(x["id"])
+                while p is not None and p["k"] not in ("CompoundStmt",):
+                    x, p = p, par.get(p["id"])
+                sib = p.get("c", []) if p is not None else []
+                i = [j for j, y in enumerate(sib) if y is x]
+                if not (i and i[0] + 1 < len(sib) and wrap_if(f, sib[i[0] + 1], v, contvar)):
+                    bad = x
+            n += 1
+            key = "generic_process:%s" % vname
+            if bad is not None:
+                rep.violation("R3-wrap", key, facts.loc(f, bad),
+                              "iterator `%s` walks the sequence-keyed fragment map cyclically (starts at %s(), not begin()) but this advance "
+                              "is not wrap-protected: buffered segments whose sequence numbers wrapped past 2^32 are never reached" % (vname, src))
+            else:
+                rep.ok("R3-wrap", key, facts.loc(f, loop), "cyclic walk from %s(): %d advances, all wrap-protected" % (src, nadv))
+    if n < 1:
+        rep.analysis_broken("TCPStream::generic_process: cyclic drain loop not recognised")
